@@ -142,7 +142,8 @@ impl<A, C, F: Filter, R, S: PtpInstanceStateMutex> Port<'_, Running, A, R, C, F,
             });
 
             while let Some(tlv) = tlv_provider.next_if_smaller(tlv_margin) {
-                assert!(tlv.size() < tlv_margin);
+                // the provider hands out TLVs that are not larger than the remaining room
+                assert!(tlv.size() <= tlv_margin);
                 let parent_port_identity = self
                     .instance_state
                     .with_ref(|s| s.parent_ds.parent_port_identity);
